@@ -869,7 +869,7 @@ func sessPhaseL(t *testing.T, r *vrng, rep *vreport, npairs, total int) {
 // bound by the same admission rule as every other: with congestion control on, after a timeout loss
 // (cwnd collapsed, the oldest segment still unacknowledged) it numbers and transmits nothing new,
 // and in general no more than min(snd_wnd, rmt_wnd, cwnd) segments are outstanding after it.
-func sessPhaseClose(t *testing.T, r *vrng, rep *vreport, ncases int) {
+func sessPhaseClose(t *testing.T, r *vrng, lg *vlog, rep *vreport, ncases int) {
 	unfreeze := sessFreeze()
 	defer unfreeze()
 	for i := 0; i < ncases; i++ {
@@ -877,20 +877,35 @@ func sessPhaseClose(t *testing.T, r *vrng, rep *vreport, ncases int) {
 		conn := sessNewConn(fmt.Sprintf("close%d", i))
 		s := sessNewSession(cfg, conn, "nobody")
 		s.SetWriteDelay(false)
+		// the case is logged in the format of the writer cases: the model replays the writes, the
+		// timer-expiry flush and Close - which is one more full flush ("u") - and compares the state
+		lg.printf("wcase %d %s\n", 100000+i, cfg)
 		nmsg := 4 + r.intn(12)
 		for k := 0; k < nmsg; k++ {
+			msg := r.bytes(900 + r.intn(400))
+			now := currentMs()
 			s.SetWriteDeadline(time.Now().Add(-time.Second)) // never block: a refused write returns at once
-			s.Write(make([]byte, 900+r.intn(400)))
+			n, err := s.Write(msg)
+			out := "A"
+			if sessIsTimeout(err) {
+				out = "B"
+			}
+			lg.printf("w %d 0 1 %s = %s %d %s\n", now, hx(msg), out, n, sessProject(s))
 		}
 		// the peer is silent: let the retransmission timer of the oldest segment expire and flush once
 		saved := refTime
 		s.mu.Lock()
 		refTime = refTime.Add(-time.Duration(int(s.kcp.rx_rto)+50) * time.Millisecond)
+		tFlush := currentMs()
 		s.kcp.flush(IKCP_FLUSH_FULL)
 		cwnd, nxt0, una0, queued := s.kcp.cwnd, s.kcp.snd_nxt, s.kcp.snd_una, s.kcp.snd_queue.Len()
 		lim := min(s.kcp.snd_wnd, s.kcp.rmt_wnd, s.kcp.cwnd)
 		s.mu.Unlock()
+		lg.printf("u %d = %s\n", tFlush, sessProject(s))
+		tClose := currentMs()
 		s.Close()
+		lg.printf("c %d = %s\n", tClose, sessProject(s))
+		lg.printf("end\n")
 		s.mu.Lock()
 		nxt1 := s.kcp.snd_nxt
 		s.mu.Unlock()
@@ -926,13 +941,13 @@ func TestVerifSess(t *testing.T) {
 	tw := time.Since(t0)
 	sessPhaseR(t, r, lg, rep, nr)
 	tr := time.Since(t0) - tw
-	lg.close()
-	sessPhaseL(t, r, rep, nl, total)
 	nc := 24
 	if vThorough() {
 		nc = 200
 	}
-	sessPhaseClose(t, r, rep, nc)
+	sessPhaseClose(t, r, lg, rep, nc)
+	lg.close()
+	sessPhaseL(t, r, rep, nl, total)
 	rep.Extra["phase_seconds"] = map[string]float64{"W": tw.Seconds(), "R": tr.Seconds(), "L": (time.Since(t0) - tw - tr).Seconds()}
 	rep.Extra["cases_W"], rep.Extra["cases_R"], rep.Extra["pairs_L"] = nw, nr, nl
 	rep.write(t, "C01sess.report.json")
